@@ -72,9 +72,12 @@ func (e *Eng) execCallWith(fr *Frame, ins ssa.Instruction, c *ssa.CallCommon, fn
 	defer func() { fr.siteIns = nil }()
 	// names a ghost assignment at this site may use besides the function's own variables: the receiver of an
 	// interface call (recv) and, when the receiver was read from a field `x.f`, the object x it belongs to (recvOwner)
-	e.siteExtra = nil
+	e.siteExtra = map[string]*Val{}
+	for i, a := range args {
+		e.siteExtra[fmt.Sprintf("arg%d", i)] = a
+	}
 	if c.IsInvoke() && fnv != nil {
-		e.siteExtra = map[string]*Val{"recv": fnv}
+		e.siteExtra["recv"] = fnv
 		if u, ok := c.Value.(*ssa.UnOp); ok {
 			if fa, ok := u.X.(*ssa.FieldAddr); ok {
 				if base, ok := fr.vals[fa.X]; ok {
@@ -647,11 +650,6 @@ func (e *Eng) siteSetsWhen(fr0 *Frame, kind, name string, st *State, g string, r
 	if fr == nil {
 		return
 	}
-	if !own && e.hasOwnSite(fr, kind, name) {
-		// the function under contract has such sites of its own: its clauses speak about those, not about the
-		// same call inside a helper it happens to use
-		return
-	}
 	for _, s := range fr.fspec.Sites {
 		if s.Kind != kind || s.Callee != name || s.SetGhost == "" || s.Before != before {
 			continue
@@ -694,11 +692,6 @@ func (e *Eng) siteSetsWhen(fr0 *Frame, kind, name string, st *State, g string, r
 func (e *Eng) siteAsserts(fr0 *Frame, kind, name string, pos token.Pos, st *State, g string, extra map[string]*Val) {
 	fr, own := fr0.specFrame()
 	if fr == nil {
-		return
-	}
-	if !own && e.hasOwnSite(fr, kind, name) {
-		// the function under contract has such sites of its own: its clauses speak about those, not about the
-		// same call inside a helper it happens to use
 		return
 	}
 	for _, s := range fr.fspec.Sites {
@@ -1157,11 +1150,6 @@ func (e *Eng) relyStepAll(st *State) {
 func (e *Eng) siteLemmasAfter(fr0 *Frame, kind, name string, pos token.Pos, st *State, g string, res *Val) {
 	fr, own := fr0.specFrame()
 	if fr == nil {
-		return
-	}
-	if !own && e.hasOwnSite(fr, kind, name) {
-		// the function under contract has such sites of its own: its clauses speak about those, not about the
-		// same call inside a helper it happens to use
 		return
 	}
 	for _, s := range fr.fspec.Sites {
